@@ -27,7 +27,7 @@ TRUSTED = pipecheck.TRUSTED
 ASSUMPTIONS = pipecheck.ASSUMPTIONS
 
 
-def one(ctx, res: Result, hist, cfg, batch, faults=(), delete_root=False):
+def one(ctx, res: Result, hist, cfg, batch, faults=(), delete_root=False, spelling="abs"):
     def before_close(run):
         run.drain()
         bad = []
@@ -37,7 +37,7 @@ def one(ctx, res: Result, hist, cfg, batch, faults=(), delete_root=False):
             run.log.append({"a": "opaque", "what": "rmtree root"})
             run.drain()
             evs = [e for ent in run.log[n0:] if ent["a"] == "emit" for e in ent["events"]]
-            root = os.fsencode(run.rootp)
+            root = os.fsencode(run.spelled_root)      # the root as the client spelled it
             dels = [e for e in evs if e[0] == "DirDeleted" and e[1] == root]
             if len(dels) != 1:
                 bad.append(("root-deleted-event", f"{len(dels)} DirDeleted(root) events delivered", [[e[0], e[1].decode('latin1')] for e in evs][-6:]))
@@ -57,7 +57,7 @@ def one(ctx, res: Result, hist, cfg, batch, faults=(), delete_root=False):
                             [[e[0], e[1].decode('latin1')] for e in evs]))
         return bad
     recursive, full, kind = cfg
-    run = pipe.Run(recursive=recursive, full=full, path_kind=kind)
+    run = pipe.Run(recursive=recursive, full=full, path_kind=kind, root_spelling=spelling)
     base = len(run.g.add_watch_log)
     for n in faults:
         run.g.add_watch_faults[n + base] = 2      # ENOENT at the n-th inotify_add_watch call after start
@@ -65,13 +65,14 @@ def one(ctx, res: Result, hist, cfg, batch, faults=(), delete_root=False):
     try:
         run.execute(hist)
         bad = before_close(run)
-        case = run.model_case(faults=[n + base for n in faults])
+        case = run.model_case(faults=[n + base for n in faults]) if spelling == "abs" else None
     finally:
         stopped = run.close()
-    meta = {**pipecheck.meta_of(hist, cfg), "add_watch_faults": list(faults), "delete_root": delete_root}
+    meta = {**pipecheck.meta_of(hist, cfg), "add_watch_faults": list(faults), "delete_root": delete_root,
+            "root_spelling": spelling}
     res.evaluations += 1
     pipecheck.hist_stats(res, hist, run)
-    res.hist("mode", "delete-root" if delete_root else ("faults" if faults else "plain"))
+    res.hist("mode", ("delete-root/" + spelling) if delete_root else ("faults" if faults else "plain"))
     tags = sorted(pipeprops.history_tags(run))
     if "something-moved-out" in tags or faults or delete_root:
         res.nontrivial.add(core.digest(meta))
@@ -80,7 +81,7 @@ def one(ctx, res: Result, hist, cfg, batch, faults=(), delete_root=False):
     for law, what, got in bad or []:
         res.failures.append(Failure(what=what, case=meta, signature={"law": law}, observed=got, expected="see property C07"))
     res.failures += pipecheck.thread_failures(run, stopped, meta, "C07")
-    if not delete_root:
+    if not delete_root and case is not None:
         batch.append((meta, run, case))
 
 
@@ -183,7 +184,7 @@ def run(ctx) -> Result:
         one(ctx, res, hist, cfg, batch, faults=faults)
     for c in ctx.corpus():
         one(ctx, res, c["history"], (c["recursive"], c["full_events"], c["path_kind"]), batch,
-            faults=c.get("add_watch_faults", ()), delete_root=c.get("delete_root", False))
+            faults=c.get("add_watch_faults", ()), delete_root=c.get("delete_root", False), spelling=c.get("root_spelling", "abs"))
     polling_root_gone(ctx, res)
     n = 150 if not ctx.thorough else 2500
     for i in range(n):
@@ -199,7 +200,8 @@ def run(ctx) -> Result:
                                     moved_out_ops=True, rename_after_arrival=0.3)
         mode = i % 6
         if mode == 4:
-            one(ctx, res, hist, cfg, batch, delete_root=True)
+            # the root under the three spellings a client may use (absolute, trailing separator, relative)
+            one(ctx, res, hist, cfg, batch, delete_root=True, spelling=("abs", "trail", "rel")[(i // 6) % 3])
         elif mode == 5:
             k = rng.randint(0, 5)
             one(ctx, res, hist, cfg, batch, faults=(k,) if rng.random() < 0.7 else (k, k + 1))
@@ -246,7 +248,7 @@ def replay(ctx, obj) -> int:
     res = Result()
     batch = []
     one(ctx, res, case["history"], (case["recursive"], case["full_events"], case["path_kind"]), batch,
-        faults=case.get("add_watch_faults", ()), delete_root=case.get("delete_root", False))
+        faults=case.get("add_watch_faults", ()), delete_root=case.get("delete_root", False), spelling=case.get("root_spelling", "abs"))
     pipecheck.check_model(res, "C07", batch)
     for f in res.failures:
         print("FAIL:", f.what, f.observed)
